@@ -5,6 +5,20 @@ HERE = os.path.dirname(os.path.dirname(os.path.abspath(__file__)))
 ids = [json.loads(l)["id"] for l in open(os.path.join(HERE, "properties.jsonl"))]
 
 CLAIMS = {
+ "C09": dict(
+   text="Per-operation contracts over the registry (dpid -> connection) and the connection's phase, for two datapath ids and the "
+        "registry entry of the connection's dpid absent / itself / another connection: _finish_connecting registers the "
+        "connection as the most recent of its dpid and raises HandshakeComplete, ConnectionUp (nexus, then connection unless "
+        "halted; exactly once), FeaturesReceived, then the deferred port-status messages in arrival order, all after "
+        "connection-up; barrier reply / barrier-unsupported error finish the handshake exactly for the barrier's xid (all xids, "
+        "types, codes symbolic), a foreign barrier reply aborts without announcing; features reply (all versions, nexus or none) "
+        "stores dpid and ports, starts deferral, sends the barrier last and raises nothing; early port status is deferred in "
+        "order; disconnect marks the connection, removes ONLY its own registration (repaired), raises ConnectionDown on nexus "
+        "then connection exactly when the dpid is known, it was not raised before and it is not deferred - never twice; close "
+        "twice raises once; sendToDPID reaches the registered connection or reports False.",
+   note="bounded to two dpids / one predecessor (reported so); OpenFlow_01_Task.run (a generator around select) is out of reach: "
+        "loss at every handshake point is covered through the disconnect contract in every phase; history = induction over steps.",
+   ref="7/C09"),
  "C08": dict(
    text="register and call_when_ready are proved per operation over the abstract state (registered components, listed "
         "waiters) under the invariant 'no listed waiter is ready', for every registered subset of three components, every "
